@@ -115,7 +115,11 @@ def build_dag(n, edges, names=NAMES, cls=None, order=None):
             # interactions BEFORE the last edge goes in: a later successful mutation must still reset every cache
             stress(g, ('dag-pre', n, tuple(edges)))
         if (n + k + len(edges)) % 3 == 0:
-            g.add_edge(names[i], names[j], edge_type='->')          # the edge type spelled as a plain string
+            # the edge type spelled as a plain string; every other time through the by-pair form
+            if (n + k) % 2:
+                g.add_edge_by_pair((names[i], names[j]), edge_type='->')
+            else:
+                g.add_edge(names[i], names[j], edge_type='->')
         elif (n + 3 * k + len(edges)) % 7 == 0:
             # the edge arrives with another type and is directed afterwards (at once, or after all edges are in)
             g.add_edge(names[i], names[j], edge_type=['o>', '--', '<>', 'oo', 'o-'][(n + k) % 5])
